@@ -299,6 +299,10 @@ STEER_CONFIGS = {
                           pub_topics={"h0": ["a"], "h1": ["a"], "h2": ["a"], "h3": ["a"]}, downs=[], last_ids={"s0": "h0", "s1": "h1"},
                           pub_after={"h1": "h0", "h2": "h1", "h3": "h2"}, cancel_subs=[], faults=1, rcap=2), 0, ["finite-manual"],
                      "a replayer of 2 slots, 4 messages: the presented ID may be evicted when the replay starts; one fault"),
+    "resume-wrap": (dict(subs=["s0", "s1"], sub_topics={"s0": ["a"], "s1": ["a"]}, pubs=["h0", "h1", "h2", "h3", "h4", "p0k0"],
+                         pub_topics={p: ["a"] for p in ["h0", "h1", "h2", "h3", "h4", "p0k0"]}, downs=[], last_ids={"s0": "h2", "s1": "h3"},
+                         pub_after={"h1": "h0", "h2": "h1", "h3": "h2", "h4": "h3"}, cancel_subs=[], faults=1, rcap=4, sub_after=5, fault_kinds=("send", "flush"), fault_odds=3), 0, ["finite-manual"],
+                    "a replayer of 4 slots after 5-6 messages (the ring has wrapped: a replay walks over the physical end of the buffer), one failing replayed Send / Flush"),
     "shutdown": (dict(subs=["s0", "s1"], sub_topics={"s0": ["a"], "s1": ["a"]}, pubs=["p0k0", "p1k0"], pub_topics={"p0k0": ["a"], "p1k0": ["a"]},
                       downs=["k1", "k2"], last_ids={}, pub_after={}, cancel_subs=["s0"], ctx_downs=["k2"], faults=1), 1, ["none", "finite-manual"],
                  "2 subscribers, 2 concurrent publishers, 2 Shutdown calls (one with a done context) after the first message, one fault, a cancellation"),
@@ -320,7 +324,8 @@ def steer_behaviours(ctx, name, num, seed):
               "PubAfter": fn({p: kw["pub_after"].get(p, NONE) for p in pubs}), "WithReplayer": kw.get("with_replayer", True), "RCap": kw.get("rcap", 0),
               "SubTopics": fn({s: set(kw["sub_topics"][s]) for s in subs}), "PubTopics": fn({p: set(kw["pub_topics"][p]) for p in pubs}),
               "LastIDs": fn({s: kw["last_ids"].get(s, NONE) for s in subs}), "FaultBudget": kw["faults"],
-              "CancelSubs": set(kw["cancel_subs"]), "CtxDowns": set(kw.get("ctx_downs", ())), "DownAfter": down_after}
+              "CancelSubs": set(kw["cancel_subs"]), "CtxDowns": set(kw.get("ctx_downs", ())), "DownAfter": down_after, "SubAfter": kw.get("sub_after", 0),
+              "FaultKinds": set(kw.get("fault_kinds", ("send", "flush", "put", "rend"))), "FaultOdds": kw.get("fault_odds", 4)}
     mod = "JS_" + re.sub(r"[^A-Za-z0-9_]", "_", name)
     d = core.write_mc(ctx, mod, "JoeSched", consts, init="SInit", nxt="SNext", invariants=["Export"])
     r = core.run_tlc(ctx, d, mod, workers=1, simulate="num=%d" % num, depth=400, seed=seed, timeout=600)
@@ -450,7 +455,7 @@ def run_C04(ctx):
     agg = new_agg()
     model_check(ctx, ["resume", "resume-evicting"] if ctx.quick else ["resume", "resume-evicting", "big-faults"], agg)
     trace_check(ctx, "resume", 500 if ctx.quick else 6000, "resume", agg)
-    steer_check(ctx, ["resume", "resume-small"], 200 if ctx.quick else 3000, "c04", agg)
+    steer_check(ctx, ["resume", "resume-small", "resume-wrap"], 150 if ctx.quick else 3000, "c04", agg)
     joe_evidence(ctx, agg, "Resume / NoDuplicates and the replay guards (a replayed Send must be the next missed event) over all interleavings of Subscribe with concurrent "
                  "Publish calls; traces with the real FiniteReplayer / ValidReplayer behind a recording wrapper, both ID modes; " + COMMON_RULE,
                  ["replayer capacity / TTL large enough to hold everything published in a scenario"])
@@ -485,6 +490,6 @@ def run_C17(ctx):
     agg = new_agg()
     model_check(ctx, ["faults"] if ctx.quick else ["faults", "big-faults"], agg)
     trace_check(ctx, "faults", 600 if ctx.quick else 8000, "isolation", agg)
-    steer_check(ctx, ["fan3", "replayer-faults", "fan3-2f"], 150 if ctx.quick else 2500, "c17", agg)
+    steer_check(ctx, ["fan3", "replayer-faults", "fan3-2f", "resume-wrap"], 120 if ctx.quick else 2500, "c17", agg)
     joe_evidence(ctx, agg, "Delivery / Complete for every subscriber that has not itself failed, PutError, AfterPanic over all interleavings with one fault anywhere; traces with a scripted "
                  "replayer that returns an error or panics on its k-th Put / Replay and subscribers of which a seeded subset fails; " + COMMON_RULE, [])
